@@ -265,6 +265,8 @@ def run_e2_once(name, names, body, pre=None, positive=(), expect_raise=None, max
             pre_c += list(lemmas(V))
         paths, stats = explore(ctx, fn, pre=pre_c, max_paths=max_paths, budget_s=budget_s, first_sample=first_sample)
     res.update(stats)
+    res["cvc5"] = dict(ctx.cvc5)
+    res["cvc5_s"] = round(ctx.cvc5_s, 2)
     claims = {}
     n_claims = 0
     harness_errors = []
@@ -705,6 +707,11 @@ def run_property(pid, modname, tier="quick", seed=0, level="model_checking", pro
         per_obligation={r["name"]: dict(wall_s=r.get("wall_s"), paths=r.get("paths"), queries=r.get("queries"), claims=len(r.get("claims", {})))
                         for r in results},
         technique=technique,
+        second_solver=dict(solver="cvc5 1.4 on the SMT-LIB2 export of claims z3 answered unsat (budget per obligation: env VERIF_CVC5_PER_OBLIGATION)",
+                           agreed_unsat=sum(r.get("cvc5", {}).get("unsat", 0) for r in results),
+                           disagreed_sat=sum(r.get("cvc5", {}).get("sat", 0) for r in results),
+                           no_answer=sum(r.get("cvc5", {}).get("unknown", 0) for r in results),
+                           time_s=round(sum(r.get("cvc5_s", 0) for r in results), 1)),
     )
     ev = dict(property_id=pid, tier=tier, seed=int(seed), level=level, coverage=cov,
               assumptions=list(assumptions), wall_s=round(time.time() - t0, 2), violations=n_viol)
